@@ -6,29 +6,29 @@ import (
 )
 
 type Evidence struct {
-	Prop, Tier              string
-	Seed                    uint64
-	Runs, Blocks, Txs       int
-	TxOK, TxFail            int
-	SimulatedMs, MaxRunSimMs int64
-	MaxGapMs, MinGapMs      int64
+	Prop, Tier                    string
+	Seed                          uint64
+	Runs, Blocks, Txs             int
+	TxOK, TxFail                  int
+	SimulatedMs, MaxRunSimMs      int64
+	MaxGapMs, MinGapMs            int64
 	Executions, Restarts, Replays int
-	Faults                  map[string]int
-	Accepted, Rejected      map[string]int
-	Probes                  map[string]int
-	Oracle                  map[string]map[string]int
-	States                  map[string]bool
-	Scheds                  map[string]bool
-	NonTrivial              map[string]bool
-	Samples                 []any
-	RunSeeds                []uint64
-	Violations              int
-	Unreproducible          int
-	KnownFindingHits        map[string]int
-	OtherPropertyViolations map[string]int
-	WallS                   float64
-	Internal                []string
-	WorkWallMs              int64
+	Faults                        map[string]int
+	Accepted, Rejected            map[string]int
+	Probes                        map[string]int
+	Oracle                        map[string]map[string]int
+	States                        map[string]bool
+	Scheds                        map[string]bool
+	NonTrivial                    map[string]bool
+	Samples                       []any
+	RunSeeds                      []uint64
+	Violations                    int
+	Unreproducible                int
+	KnownFindingHits              map[string]int
+	OtherPropertyViolations       map[string]int
+	WallS                         float64
+	Internal                      []string
+	WorkWallMs                    int64
 }
 
 func newEvidence(prop, tier string, seed uint64) *Evidence {
@@ -147,33 +147,33 @@ func (e *Evidence) doc() map[string]any {
 		"distinct_nontrivial": len(e.NonTrivial),
 		"rule": "one evaluation = one seeded simulated run (genesis configuration, workload, schedule and faults all drawn from the run seed; oracles of every property evaluated after every block). " +
 			"A run is non-trivial when it committed >= 10 blocks and >= 3 user transactions succeeded; distinct = distinct hash of the run's schedule (per-height proposer, voter set, absent votes, crash points, failed rounds, tx kinds and delivery targets, block-time gap class).",
-		"samples":                   e.Samples,
-		"runs_per_hour":             e.runsPerHour(),
-		"run_seeds_first":           e.RunSeeds,
-		"blocks_decided":            e.Blocks,
-		"block_executions":          e.Executions,
-		"user_txs":                  e.Txs,
-		"user_txs_ok":               e.TxOK,
-		"user_txs_failed":           e.TxFail,
-		"simulated_time_days_sum":   float64(e.SimulatedMs) / 86400000,
-		"simulated_time_days_max_run": float64(e.MaxRunSimMs) / 86400000,
-		"block_gap_ms_min":          min,
-		"block_gap_ms_max":          e.MaxGapMs,
-		"faults_fired":              e.Faults,
-		"fault_kinds_unreached":     unreached,
-		"node_restarts":             e.Restarts,
+		"samples":                       e.Samples,
+		"runs_per_hour":                 e.runsPerHour(),
+		"run_seeds_first":               e.RunSeeds,
+		"blocks_decided":                e.Blocks,
+		"block_executions":              e.Executions,
+		"user_txs":                      e.Txs,
+		"user_txs_ok":                   e.TxOK,
+		"user_txs_failed":               e.TxFail,
+		"simulated_time_days_sum":       float64(e.SimulatedMs) / 86400000,
+		"simulated_time_days_max_run":   float64(e.MaxRunSimMs) / 86400000,
+		"block_gap_ms_min":              min,
+		"block_gap_ms_max":              e.MaxGapMs,
+		"faults_fired":                  e.Faults,
+		"fault_kinds_unreached":         unreached,
+		"node_restarts":                 e.Restarts,
 		"blocks_replayed_after_restart": e.Replays,
-		"msgs_accepted":             e.Accepted,
-		"msgs_rejected":             e.Rejected,
-		"probes":                    e.Probes,
-		"oracle_counters":           e.Oracle,
-		"distinct_states":           len(e.States),
-		"distinct_states_measure":   "abstract fingerprint per block: (#open rounds, #tipped, #with reports, #reporters, #selectors, #bonded validators, #nodes down, cycle index)",
-		"distinct_interleavings":    len(e.Scheds),
-		"known_finding_hits":        e.KnownFindingHits,
-		"other_property_violations": e.OtherPropertyViolations,
-		"unreproducible_violations": e.Unreproducible,
-		"internal_errors":           len(e.Internal),
+		"msgs_accepted":                 e.Accepted,
+		"msgs_rejected":                 e.Rejected,
+		"probes":                        e.Probes,
+		"oracle_counters":               e.Oracle,
+		"distinct_states":               len(e.States),
+		"distinct_states_measure":       "abstract fingerprint per block: (#open rounds, #tipped, #with reports, #reporters, #selectors, #bonded validators, #nodes down, cycle index)",
+		"distinct_interleavings":        len(e.Scheds),
+		"known_finding_hits":            e.KnownFindingHits,
+		"other_property_violations":     e.OtherPropertyViolations,
+		"unreproducible_violations":     e.Unreproducible,
+		"internal_errors":               len(e.Internal),
 		"components": map[string]any{
 			"real": []string{"app.App (all keepers, Begin/EndBlockers, PreBlocker, ante chain, Prepare/ProcessProposal, ExtendVote/VerifyVoteExtension, msg servers, baseapp runTx)", "cosmos-sdk store/IAVL over in-memory DB", "bank/staking/slashing/distribution/gov/auth", "cosmos keyring (in-memory via hook H1; shipped file keyring on a fraction of runs)", "signed SDK transactions"},
 			"stub": []string{"CometBFT (simcomet: round-level driver generating legal ABCI call sequences)", "network (seeded delivery/loss/dup/delay/partition decisions)", "validator clocks / BFT time", "EVM contracts (evmmodel)", "clients/wallets"},
